@@ -35,7 +35,7 @@ REQUIRED_COUNTERS = ['converter', 'converter_no_bottom', 'has_cw', 'sparse_never
                      'names:int0', 'names:empty0', 'names:person',
                      'cands_6_7', 'shared3', 'shared3_first', 'only_in_shared', 'shared_first', 'long_cycle', 'tied_seats_3',
                      'tideman_multi', 'tideman_schwartz', 'schwartz_sensitive', 'scorer_sensitive', 'uab_sensitive',
-                     'twice', 'after_refusal', 'ctor_fresh', 'ctor_callable', 'centre_squeeze']
+                     'twice', 'after_refusal', 'ctor_fresh', 'ctor_callable', 'centre_squeeze', 'rp_turnout_cycle']
 RULE = ('pairwise dictionaries over 2-5 candidates (6 occasionally) as in C06 (sparse / dense / tied / zero-count entries, '
         'int and Fraction counts, shuffled insertion order) and dictionaries derived with the real RankedToCondorcetVotes '
         '(unranked_at_bottom True and False) from profiles with truncated ballots and shared ranks; every entry of '
@@ -212,6 +212,35 @@ def _gen(rng, tier):
             cs['_names'] = ['str', 'int0', 'empty0'][t % 3]
             cs['_tags'].append('names:' + cs['_names'])
             yield cs
+    # majority cycles in which the pairs have different turnouts, so that the order of the defeats by margin differs from their
+    # order by raw count (truncated ballots, sparse dictionaries): the lock order of ranked pairs by margins is decided by the
+    # configured strength, not by the count
+    yield from _pairwise_cases(rng, [[0, 1, '10'], [1, 2, '20'], [2, 1, '15'], [2, 0, '14'], [0, 2, '7']],
+                               ['directed', 'turnout_cycle'])
+    prof = [[[1, 0], '5'], [[2, 1], '9'], [[0, 2, 1], '3'], [[0], '7']]
+    yield from _pairwise_cases(rng, CC.profile_to_pairwise(prof, True), ['directed', 'turnout_cycle', 'from_ranked', 'uab_true'])
+    for t in range(25 if tier == 'quick' else 250):
+        m = rng.choice([3, 3, 4])
+        order = list(range(m))
+        rng.shuffle(order)
+        ent = []
+        for i in range(m):
+            a, b = order[i], order[(i + 1) % m]
+            lose = rng.randint(0, 12)
+            win = lose + rng.randint(1, 9)
+            ent.append([a, b, str(win)])
+            if lose or rng.random() < 0.3:
+                ent.append([b, a, str(lose)])
+        if m == 4:          # the two diagonals
+            for a, b in ((order[0], order[2]), (order[1], order[3])):
+                lose = rng.randint(0, 12)
+                win = lose + rng.randint(1, 9)
+                if rng.random() < 0.5:
+                    a, b = b, a
+                ent += [[a, b, str(win)], [b, a, str(lose)]]
+        rng.shuffle(ent)
+        yield from _pairwise_cases(rng, ent, ['directed', 'turnout_cycle'],
+                                   evals=['rankedpairs_margins', 'rankedpairs_winvotes', 'rankedpairs_pwo'])
     # ballots that start with a shared rank of three or four candidates (the Gregory split of first preferences)
     for t in range(12 if tier == 'quick' else 120):
         m = rng.choice([4, 5, 6])
@@ -306,6 +335,8 @@ def generate(rng, tier):
                 c['_tags'].append('close_fraction')
             if c['name'] == 'copeland_2o' and _copeland_boundary_tie(c):
                 c['_tags'].append('second_order_used')
+            if c['name'] == 'rankedpairs_margins' and _turnout_cycle(c):
+                c['_tags'].append('rp_turnout_cycle')
         else:
             c['_tags'] += CC.profile_features(c['profile'])
             if c['op'] == 'tideman' and not c.get('smith', True):
@@ -314,6 +345,19 @@ def generate(rng, tier):
                 if pc and CC.smith_set(d, pc) != CC.schwartz_set(d, pc):
                     c['_tags'].append('schwartz_sensitive')
         yield c
+
+
+def _turnout_cycle(c):
+    """no Condorcet winner, all (margin, count) keys distinct, and the pairs sort differently by margin and by raw count"""
+    d = CC.dmap(c)
+    cands = CC.cands_of(c)
+    if CC.condorcet_winner(d, cands):
+        return False
+    keys = list(d)
+    mk = {p: (d[p] - d.get((p[1], p[0]), 0), d[p]) for p in keys}
+    if len(set(mk.values())) != len(keys):
+        return False
+    return sorted(keys, key=lambda p: mk[p], reverse=True) != sorted(keys, key=lambda p: (d[p], mk[p][0]), reverse=True)
 
 
 def _copeland_boundary_tie(c):
@@ -624,15 +668,18 @@ def oracle(case, obs):
             elif obs != list(arg[0][:n]):
                 out.append(('defining', f'best orders start with {arg[0][:n]}, got {obs}'))
     if name.startswith('rankedpairs'):
+        # independent ranked pairs (all three scorers, every n): majorities sorted by the configured strength, equal strengths by
+        # the raw count (the library's secondary key), locked unless they close a cycle; applied where the lock order is determined
+        # (all (strength, count) keys pairwise distinct)
         fr = _rankedpairs_forced(d, cands, name.split('_')[1])
         if fr is not None:
             prefix, total = fr
             k = min(n, len(prefix))
             if obs[:k] != prefix[:k]:
-                out.append(('defining', f'locked majorities force {prefix[:k]}, got {obs}'))
+                out.append(('locked_order', f'locked majorities force {prefix[:k]}, got {obs}'))
             elif n > len(prefix) and len(obs) > len(prefix) and not any(isinstance(x, dict) for x in obs[len(prefix):]):
-                out.append(('defining', f'places after {prefix} are not determined by the locked majorities but '
-                                        f'{obs} reports no tie'))
+                out.append(('silent_tie', f'places after {prefix} are not determined by the locked majorities but '
+                                          f'{obs} reports no tie'))
     return out
 
 
